@@ -86,7 +86,7 @@ impl HasParent<&StringName> for Class {
         crate::verif_hooks::bump(6);
         if self.name == *other || other.name.as_str() == ANY {
             return Ok(true);
-        } else if (self.name.name == TUPLE && (other.name == TUPLE || other.name == COLLECTION))
+        } else if (self.name.name == TUPLE && other.name == COLLECTION)
             || (self.name.name == *other.name && self.name.generics.len() == other.generics.len())
         {
             // Contender! check generics
